@@ -195,6 +195,10 @@ pub fn create_matrix_transport_cost_with_fallback<T: TransportFallback + 'static
         return Err("duration lengths don't match".into());
     }
 
+    if costs.iter().any(|matrix| matrix.distances.len() != size * size) {
+        return Err("distance and duration collections should have square matrix length".into());
+    }
+
     Ok(if costs.iter().any(|costs| costs.timestamp.is_some()) {
         Arc::new(TimeAwareMatrixTransportCost::new(costs, size, fallback)?)
     } else {
